@@ -26,7 +26,7 @@ var bitlistFuncs = []string{"utils.NewBitList", "utils.(*BitList).Len", "utils.(
 	"utils.(*BitList).IterateBytes", "utils.(*BitList).IterateBytes$1"}
 
 var gfFuncs = []string{"utils.(*GaloisField).AddOrSub", "utils.(*GaloisField).Multiply", "utils.(*GaloisField).Divide", "utils.(*GaloisField).Invers",
-	"utils.lemmaMulComm", "utils.lemmaMulAssoc", "utils.lemmaInverse", "utils.lemmaDivUndoesMul", "utils.lemmaDivIsMulInverse"}
+	"utils.lemmaMulComm", "utils.lemmaMulAssoc", "utils.lemmaInverse", "utils.lemmaDivUndoesMul", "utils.lemmaDivIsMulInverse", "utils.NewGFPoly"}
 
 var props = []*PropDef{
 	{
